@@ -78,7 +78,7 @@ class UnwhitenedVariationalStrategy(_VariationalStrategy):
             )
 
         # retrieve the variational mean, m and covariance matrix, S.
-        var_cov_root = TriangularLinearOperator(self._variational_distribution.chol_variational_covar)
+        var_cov_root = TriangularLinearOperator(self._variational_distribution.chol_variational_covar.tril())
         var_cov = CholLinearOperator(var_cov_root)
         var_mean = self.variational_distribution.mean  # .unsqueeze(-1)
         if var_mean.shape[-1] != 1:
